@@ -230,6 +230,15 @@ class OpsMixin:
             return self.divmod_const(a, 2 ** b)[0]
         if t is ast.LShift and isinstance(b, int):
             return mkint(za * (2 ** b))
+        if t in (ast.BitOr, ast.BitXor):
+            # disjoint bit ranges: x a multiple of 2^k, 0 <= y < 2^k  =>  x | y == x ^ y == x + y
+            for x, y in ((za, zb), (zb, za)):
+                k = self._trailing_zeros(x)
+                if k:
+                    lo, hi = self.ibounds(y)
+                    xlo, _ = self.ibounds(x)
+                    if lo is not None and hi is not None and lo >= 0 and hi < 2 ** k and xlo is not None and xlo >= 0:
+                        return mkint(x + y)
         if t in (ast.BitOr, ast.BitXor, ast.BitAnd):
             return self.bitop_via_bv(a, b, t)
         if t is ast.Pow:
@@ -244,6 +253,20 @@ class OpsMixin:
                 r = self.int_binop(ast.Mult(), r, a)
             return r
         raise Unsupported(f"int binop {t.__name__}")
+
+    def _trailing_zeros(self, t):
+        """k such that the Int term is certainly a multiple of 2^k (syntactic)"""
+        t = z3.simplify(t)
+        if z3.is_int_value(t):
+            v = t.as_long()
+            if v == 0:
+                return 64
+            return (v & -v).bit_length() - 1
+        if z3.is_mul(t):
+            return sum(self._trailing_zeros(c) for c in t.children())
+        if z3.is_add(t):
+            return min(self._trailing_zeros(c) for c in t.children())
+        return 0
 
     def divmod_const(self, a, k):
         """floor division / modulo of a symbolic Int by a non-zero constant, eliminated into fresh q, r."""
@@ -1482,6 +1505,11 @@ class OpsMixin:
         co = _find_in_mro(type(container), "__contains__")
         if co is not None and self.interpretable(co):
             return self.call_function(co, [container, item], {})
+        if type(container).__name__ == "SymRange" and container.step == 1 and isinstance(item, INTLIKE):
+            # int in range(lo, hi): lo <= item < hi
+            return self.and_(self.cmp("GtE", item, container.lo), self.cmp("Lt", item, container.hi))
+        if isinstance(container, range) and container.step == 1 and isinstance(item, (SymInt, SymBV)):
+            return self.and_(self.cmp("GtE", item, container.start), self.cmp("Lt", item, container.stop))
         if is_sym(item):
             raise Unsupported(f"'in' on {type(container).__name__} with symbolic item")
         return item in container
